@@ -160,7 +160,30 @@ class Session:
         self.c.calls.append({"fn": "KeyBlock.kbpk=", "args": [enc_b(k)], "entropy": "", "stream": "tr31", "session": True})
         return self._finish(r, f"hist.setkbpk\t{enc_b(k)}", lambda v: "n")
 
+    def accessors(self):
+        """read-only accessors of the mapping and of the key block object, judged against the visible state (implementation only)"""
+        h = self.kb.header
+        ids = list(h.blocks)
+        want = dict((k, h.blocks[k]) for k in ids)
+        for absent in ("ZZ", "zz", "PB", ids[0].swapcase() if ids else "Kx", ""):
+            if absent in want:
+                continue
+            r = call_impl(h.blocks.__getitem__, (absent,), stream="tr31")
+            if r.ok or not isinstance(r.exc, KeyError):
+                self.c.fail(f"blocks[{absent!r}] on a header without that block: {'returned ' + repr(r.value) if r.ok else repr(r.exc)} (KeyError expected)")
+            if absent in h.blocks:
+                self.c.fail(f"{absent!r} in blocks is True although iteration does not list it")
+        if repr(h.blocks) != repr(want):
+            self.c.fail(f"repr(blocks) {repr(h.blocks)[:80]} differs from the mapping's items")
+        a, b = call_impl(self.kb.__str__, (), stream="tr31"), call_impl(h.__str__, (), stream="tr31")
+        if a.ok != b.ok or (a.ok and a.value != b.value) or (not a.ok and type(a.exc) is not type(b.exc)):
+            self.c.fail("str(KeyBlock) differs from str(its header)")
+
+    def state_now(self):
+        return enc_header(self.kb.header)
+
     def str(self):
+        self.accessors()
         r = call_impl(self.kb.header.__str__, (), stream="tr31")
         self.c.calls.append({"fn": "Header.__str__", "args": [], "entropy": "", "stream": "tr31", "session": True})
         return self._finish(r, "hist.str", enc_s)
